@@ -54,7 +54,7 @@ Your job: produce ONE realistic change to the library's source (under {wt}/src/o
  (a) the code still imports/compiles, and
  (b) the ENTIRE existing test suite still passes with the change, and
  (c) the breakage needs something specific to manifest — a particular multi-step sequence of operations, an unusual input, a particular state (e.g. a cached value populated earlier, a repeated row/cell, a name with special characters, a document opened from a folder, a second save…), or two cooperating sites that each look fine alone. It must NOT be something ordinary use or the existing tests expose at once.
-The change should look like something a developer could plausibly commit by mistake (an optimisation, a refactoring, a forgotten invalidation/copy/check, a swapped argument, an off-by-one in a rarely taken branch, an over-eager early return…). Keep it small (typically 1–15 changed lines). Other engineers have ALREADY produced the following changes (short descriptions), so do NOT repeat them or touch the same functions; pick a clearly different mechanism, function or file: {'; '.join(avoid.get(p['id'], [])) or '(none yet)'}. {HINT.get(sfx, HINT['a'])} Read the relevant source first to find where the property is actually enforced, and pick a spot the tests do not pin.
+The change should look like something a developer could plausibly commit by mistake (an optimisation, a refactoring, a forgotten invalidation/copy/check, a swapped argument, an off-by-one in a rarely taken branch, an over-eager early return…). Keep it small (typically 1–15 changed lines). Other engineers have ALREADY produced the following changes (short descriptions), so do NOT repeat them or touch the same functions; pick a clearly different mechanism, function or file: {'; '.join(avoid.get(p['id'], [])) or '(none yet)'}. Changes already made for OTHER properties of the same library (avoid these mechanisms too, they are known): {'; '.join(n for k, v in sorted(avoid.items()) if k != p['id'] for n in v)}. {HINT.get(sfx, HINT['a'])} Read the relevant source first to find where the property is actually enforced, and pick a spot the tests do not pin.
 
 How to run things (the library is normally installed from another checkout, so ALWAYS set PYTHONPATH to your worktree):
   cd {wt} && PYTHONPATH={wt}/src /venv/bin/python -m pytest -q -p no:cacheprovider -n 6 -x          # whole suite, 2-4 minutes; must pass WITH your change
